@@ -59,8 +59,15 @@ def malformed(kind, rng):
         ])
     if kind == "waveshare":
         p = bytearray(wire.usb_frame(wire.can_id(3, 127250, 9, 255), bytes([1, 2, 3, 4, 5, 6, 7, 8])))
-        which = rng.randrange(3)
-        if which == 0:
+        which = rng.randrange(6)
+        if which == 3:
+            # correctly framed, valid checksum, but the payload is rejected by the field decoder (raises)
+            p = bytearray(wire.usb_frame(wire.can_id(3, 127250, 9, 255), b"\xfd" * 8))
+        elif which == 4:
+            p = bytearray(wire.usb_frame(wire.can_id(3, 129029, 9, 255), bytes([0x20])))     # fast PGN, 1 data byte (raises)
+        elif which == 5:
+            p = bytearray(wire.usb_frame(wire.can_id(3, 129029, 9, 255), b""))               # fast PGN, no data (raises)
+        elif which == 0:
             p[19] ^= 0x5A                       # bad checksum
         elif which == 1:
             p[12] ^= 0x01                       # corrupted data byte, checksum stale
